@@ -614,7 +614,13 @@ def st_oneof(case, rec, rng, s):
 def st_parameter(case, rec, rng, s):
     from geoh5py.ui_json import parameters as P
 
-    classes = [(P.StringParameter, ["a", "b", 1, None, 2.5]), (P.IntegerParameter, [1, 2, "x", 2.5, None]), (P.FloatParameter, [1.5, 2.5, 1, "x", None]), (P.BoolParameter, [True, False, "t", 1.5]), (P.StringListParameter, ["a", ["a", "b"], 3, None])]
+    def choice(name):
+        return P.ValueRestrictedParameter(name, ["nearest", "linear"], value="linear")
+
+    choice.__name__ = "ValueRestrictedParameter"
+    # ill-typed values make some enforcers raise a plain Python exception (unhashable list in a choice set): rejected all the same
+    classes = [(P.StringParameter, ["a", "b", 1, None, 2.5]), (P.IntegerParameter, [1, 2, "x", 2.5, None]), (P.FloatParameter, [1.5, 2.5, 1, "x", None]), (P.BoolParameter, [True, False, "t", 1.5]), (P.StringListParameter, ["a", ["a", "b"], 3, None]),
+               (choice, ["nearest", "linear", "cubic", ["nearest", "linear"], {"a": 1}, 3])]
     cls, vals = rng.choice(classes)
     long_ = cls("x")
     seq = []
@@ -645,7 +651,8 @@ def st_formparameter(case, rec, rng, s):
         (lambda: F.StringFormParameter("p", value="a", label="l"), ["b", "c", 4, None]),
         (lambda: F.IntegerFormParameter("p", value=1, label="l"), [2, 3, "x", 2.5]),
         (lambda: F.FloatFormParameter("p", value=1.0, label="l"), [2.5, "x", 3]),
-        (lambda: F.ChoiceStringFormParameter("p", ["a", "b"], value="a", label="l"), ["a", "b", "z", 3]),
+        (lambda: F.ChoiceStringFormParameter("p", ["a", "b"], value="a", label="l"), ["a", "b", "z", 3, ["a"], ["a", "b"]]),
+        (lambda: F.ObjectFormParameter("p", [str(type(s["A"]).default_type_uid())], value=s["A"], label="l"), [s["A"], str(s["A"].uid), s["A"].uid, 3, s["C"]]),
         (lambda: F.BoolFormParameter("p", value=True, label="l"), [True, False, "no"]),
     ]
     make, vals = rng.choice(classes)
